@@ -38,6 +38,22 @@ theorem C04_scan_context (pre xs post : List PyTok) (a : Str) (h : a ∈ scan xs
   rw [List.append_assoc]
   exact scan_prefix pre _ a (scan_suffix xs post a h)
 
+/-- What `scan` assumes about the characters inside the string literal.  `RangeNode._emit` writes the address text
+    between double quotes WITHOUT escaping, and the scanner takes `token.string[1:-1]` back verbatim, so on token lists
+    the round trip is exact for every text (`C04_scan_complete` quantifies over all address texts).  A token list is
+    the Python tokenisation of `python_code` exactly when no emitted text holds `"`, `\`, or a line break (`litSafe`):
+    Excel allows `"` in a sheet title, and such a formula does not compile at all (unterminated literal — no read
+    ever happens).  Every other character Excel allows in a title (parentheses, `&#%+,;=@^~{}<>`, apostrophes, digits
+    only, address / `TRUE` look-alikes, non-ASCII letters) passes through unchanged; the correspondence run diffs the
+    Python tokens for all of them.  `$` is stripped from the whole reference text, sheet title included, and `_R_` /
+    `_C_` are rewritten under reference operators (`refixed`): both mangle the title before the scanner sees it. -/
+def litSafe (s : Str) : Bool := s.all fun c => c ≠ '"' && c ≠ '\\' && c ≠ '\n' && c ≠ '\r'
+
+/-- the emitter does not escape: the title `a"b` lands in the literal body as it is -/
+example : emitAddr ⟨false, ⟨"a\"b".toList, 1, 1, 1, 1⟩⟩ = [.name nmC, .lpar, .str "a\"b!A1".toList, .rpar] ∧
+    litSafe "a\"b!A1".toList = false ∧ litSafe "Costs (2)!A1".toList = true ∧ litSafe "R&D!$A$1".toList = true := by
+  decide
+
 /-- every reference emitted for a written reference (plain, `$`, sheet-qualified, range, multi-colon, defined name
     with one or several areas, operands of intersections and `,` unions, the argument of ROW / COLUMN and their
     implicit own cell, at any nesting depth inside operators and functions) is found by the scanner -/
